@@ -80,6 +80,24 @@ type hstore struct {
 	// scripted read failures (environment action of Pruner.tla). Every read also honours its context, as a
 	// disk-backed store does: after Stop cancelled the service context, reads made with it fail.
 	rs readScript
+
+	// fine-grained finder replay (PrunerFine.tla): every read the finder makes is counted and announced
+	// *before* it is served, so that the script can move the store between two reads of one call
+	fineReads int
+	fineHook  func(k int)
+}
+
+func (s *hstore) finderRead(ctx context.Context) {
+	if tagOf(ctx) != "" || !inFinder(ctx) {
+		return
+	}
+	s.mu.Lock()
+	s.fineReads++
+	k, hook := s.fineReads, s.fineHook
+	s.mu.Unlock()
+	if hook != nil {
+		hook(k)
+	}
 }
 
 // readScript says which reads of the next cycle / header deletion fail. The phases of prune() are told apart
@@ -118,6 +136,7 @@ func (s *hstore) Head(ctx context.Context, _ ...libhead.HeadOption[*header.Exten
 	if err := ctx.Err(); err != nil {
 		return nil, err
 	}
+	s.finderRead(ctx)
 	s.mu.Lock()
 	defer s.mu.Unlock()
 	if tagOf(ctx) == "" && inFinder(ctx) {
@@ -182,6 +201,7 @@ func (s *hstore) GetByHeight(ctx context.Context, height uint64) (*header.Extend
 	if err := ctx.Err(); err != nil {
 		return nil, err
 	}
+	s.finderRead(ctx)
 	s.mu.Lock()
 	defer s.mu.Unlock()
 	switch {
@@ -219,6 +239,7 @@ func (s *hstore) GetRange(ctx context.Context, from, to uint64) ([]*header.Exten
 	if err := ctx.Err(); err != nil {
 		return nil, err
 	}
+	s.finderRead(ctx)
 	s.mu.Lock()
 	defer s.mu.Unlock()
 	if to <= from {
@@ -1280,6 +1301,9 @@ func TestDriver(t *testing.T) {
 		}
 		rep.Set("behaviours", len(bs))
 		rep.Set("drifted", drifted)
+	}
+	if p := os.Getenv("VERIF_FINE_BEHAVIOURS"); p != "" {
+		fineReplay(t, rep, p)
 	}
 	if os.Getenv("VERIF_STORE_EFFECT") != "0" {
 		storeEffect(t, rep)
